@@ -80,6 +80,11 @@ def gather_states(tier, run, budget=None, extra_models=True):
             if m not in seen:
                 res.append((m, tr, 'cross-namespace-inheritance', ('aliases', 'imports', 'inherit', 'uinherit', 'ns', 'routes', 'unions', 'wrappers', 'defaults'), 3))
         run.bounds['cross_namespace_inheritance_models'] = len(cni)
+        tnc = profiles.three_namespace_chain_models()
+        for m, tr in tnc:
+            if m not in seen:
+                res.append((m, tr, 'three-namespace-alias-chain', ('aliases', 'imports', 'ns', 'routes', 'unions', 'wrappers', 'defaults'), 3))
+        run.bounds['three_namespace_alias_chain_models'] = len(tnc)
     return res
 
 
